@@ -72,6 +72,7 @@ static void occurs_any(const hx_buf *in, int *overlong, int *halffull) {
         if (cp >= 0xff00 && cp <= 0xffef) *halffull = 1;
     }
 }
+static int STRICT_VALIDATE = 1;
 static int STRICT_RECOVERY = 1;   /* compare bytes and the overlong / full-width indicators after an ill-formed sequence too (recovery policy as commented in the code) */
 static int ref_stage2(const ref_dcfg *c, const hx_buf *in, hx_buf *out, unsigned *fl) {
     int wellformed = 1, multi = 0; size_t i = 0;
@@ -215,7 +216,9 @@ static int run_one(int ci, int verbose) {
     /* (3) indicators */
     for (size_t f = 0; f < sizeof FL / sizeof FL[0]; f++) {
         /* after an ill-formed sequence the resynchronisation point is not documented, so what later bytes "are" (overlong? full-width?) is not judged */
-        if (!RO.wellformed && !(STRICT_RECOVERY && C[ci].r.bestfit) && (FL[f].ref == RF_UTF8_OVERLONG || FL[f].ref == RF_HALF_FULL)) {
+        /* (round 5: the validating variant is held to the same recovery rule as the converting one - the offending byte begins the next character -
+         * so that both raise the same indicators for the same bytes; STRICT_VALIDATE=0 restores the weaker "not spurious at any alignment" clause) */
+        if (!RO.wellformed && !(STRICT_RECOVERY && (C[ci].r.bestfit || STRICT_VALIDATE)) && (FL[f].ref == RF_UTF8_OVERLONG || FL[f].ref == RF_HALF_FULL)) {
             /* the validating variant resumes differently and says nothing about it: only "not spurious" is judged, against every alignment */
             int ov, hf; occurs_any(&RO.s1, &ov, &hf);
             if ((tx->flags & FL[f].lib) != 0 && !(RO.fl1 & FL[f].ref) && !(FL[f].ref == RF_UTF8_OVERLONG ? ov : hf)) { char k[64]; snprintf(k, sizeof k, "flag_%s_spurious", FL[f].name); viol(k, ci, "indicator %s is set, the construct occurs at no alignment of the decoded bytes", FL[f].name); bad = 1; }
